@@ -133,3 +133,18 @@ def export_event(lang, model, naming):
         os.remove(path)
     return {'a': 'Export', 'args': {'lang': lang}, 'out': ev['out'], 'post': ev['post'], 'anom': ev['anom'],
             'ret': {'parsed': parsed, 'err': err, 'doc': doc, 'digest': ev['ret']['digest']}}
+
+
+def readref_event(fmt, refmodel, naming, ch, broken):
+    """Render the reference model with the independent emitter and read it with the library."""
+    import emit_ref
+    choices = {k: (v == '1') if v in ('0', '1') else v for k, v in ch.items()}
+    choices['broken'] = broken
+    text = emit_ref.EMITTERS[fmt](refmodel, naming, choices)
+    path = new_path(fmt)
+    with open(path, 'w', encoding='utf-8') as f:
+        f.write(text)
+    ev, _ = read_event(fmt, path, naming, action='ReadRef',
+                       args={'model': refmodel, 'ch': ch, 'broken': broken})
+    os.remove(path)
+    return ev, text
